@@ -222,7 +222,13 @@ def run_config(rng, ctx, scn, CV, watch, index, tracer):
         scatter_arg = int(scatter)
     case['scatter_flag_type'] = type(scatter_arg).__name__
     try:
-        res = scn.convert(data, origin, target, scatter=scatter_arg)
+        style = index % 3  # documented parameter names and order: (data, origin, target, scatter)
+        if style == 0:
+            res = scn.convert(data, origin, target, scatter_arg)
+        elif style == 1:
+            res = scn.convert(data=data, origin=origin, target=target, scatter=scatter_arg)
+        else:
+            res = scn.convert(data, origin, target, scatter=scatter_arg)
         outcome = 'ok'
     except RuntimeError as e:
         res, outcome, err = None, 'refuse', e
@@ -244,7 +250,8 @@ def run_config(rng, ctx, scn, CV, watch, index, tracer):
         return
     # ---- the reported graph is the one that is used
     try:
-        reported = CV.deduce_conversion_graph(data, origin, target, scatter_arg)
+        reported = (CV.deduce_conversion_graph(data, origin, target, scatter_arg) if index % 2 else
+                    CV.deduce_conversion_graph(data=data, origin=origin, target=target, scatter=scatter_arg))
         rep_ok = True
     except RuntimeError:
         reported, rep_ok = None, False
@@ -264,7 +271,8 @@ def run_config(rng, ctx, scn, CV, watch, index, tracer):
                                                                   reported=sorted(map(repr, reported))))
     # the explicit-mode factory must agree with the deduced one
     try:
-        explicit = CV.conversion_graph(origin, target, scatter, mode)
+        explicit = (CV.conversion_graph(origin, target, scatter, mode) if index % 2 else
+                    CV.conversion_graph(origin=origin, target=target, scatter=scatter, energy_mode=mode))
         if set(map(repr, explicit)) != set(map(repr, reported)) or any(explicit[k] is not reported[k] for k in reported):
             ctx.violation('graph_report', f'conversion_graph({origin}, {target}, {scatter}, {mode}) differs from the '
                           'graph deduce_conversion_graph reports for data in that mode', case)
